@@ -1,7 +1,7 @@
 """C18 Source positions survive preprocessing (DESIGN.md section 3, C18)."""
 from ..interp import Interp, Obj, Sym, Term, Lin, View, Cell, Arr, is_opaque, vkey, Unsupported, _Ref
 from ..build import AnalysisBroken
-from ..lib_c18 import (CutInterp, INF, lin, lsub, ladd, same, byte_addr, known_byte, may_be, isnl, pinned,
+from ..lib_c18 import (contradictory, CutInterp, INF, lin, lsub, ladd, same, byte_addr, known_byte, may_be, isnl, pinned,
                        lower_bound, events, first, after)
 
 T = 'tokenize.c'
@@ -109,6 +109,7 @@ def decode(ctx, out):
 def decode_all(paths):
     """decode every path; cursors missing on a path (it does not read / does not write) are taken from the other paths"""
     ds = [(ctx, out, decode(ctx, out)) for ctx, out in paths]
+    ds = [(ctx, out, d) for (ctx, out, d) in ds if isinstance(d, str) or not any(contradictory(ctx, Term('byte', a)) for a in d.reads)]
     rc = set(d.rcur for _, _, d in ds if not isinstance(d, str) and d.rcur)
     wc = set(d.wcur for _, _, d in ds if not isinstance(d, str) and d.wcur)
     for _, _, d in ds:
@@ -270,13 +271,37 @@ def r181(P, u, rep):
             rep.ob('R18.1', base + ':terminator-after-flush', okt,
                    'the NUL terminator is not stored at the final write position (pending newlines written behind it are cut off, or stale text stays in the buffer)', where=W, facts=facts)
     # entry state establishes the invariant
-    for ctx, out in paths[:1]:
-        f = decode(ctx, out)
+    for ctx, out, f in decode_all(paths)[:1]:
         if not isinstance(f, str):
-            ok = all(isinstance(v, int) and v == 0 for v in f.entry.values())
-            rep.ob('R18.1', base + ':initial-state', ok, 'cursors and pending counter do not all start at 0: %r' % (f.entry,), where=W)
+            rep.ob('R18.1', base + ':initial-state', _initial_ok(f), 'read and write cursor do not both start at the first byte of the buffer, or the pending counter does not start at 0: %r' % (f.entry,), where=W)
     if not (n_iter >= 3 and n_exit >= 1 and seen_splice and seen_nl and seen_copy):
         rep.undecided('R18.1', base + ':liveness', 'expected splice, newline and copy iterations and an exit path (iterations %d, exits %d, splice %s, newline %s, copy %s)' % (n_iter, n_exit, seen_splice, seen_nl, seen_copy), where=W)
+
+
+def _initial_ok(f):
+    for k, v in f.entry.items():
+        if k in (f.rcur, f.wcur):
+            if not ((isinstance(v, int) and v == 0) or (isinstance(v, Sym) and v.name == 'P')):
+                return False
+        elif not (isinstance(v, int) and v == 0):
+            return False
+    return f.rcur in f.entry and (f.wcur in f.entry)
+
+
+def _stamp_fact(key, val, p0k):
+    """truth of `scan pointer == <token>.loc` expressed by a recorded fact, else None"""
+    if not (isinstance(key, tuple) and key and key[0] == 'term'):
+        return None
+    if key[1] in ('==', '!=') and len(key) == 4:
+        a, b = key[2], key[3]
+        other = b if a == p0k else (a if b == p0k else None)
+        if other is not None and isinstance(other, tuple) and other[0] == 'sym' and other[1].endswith('.loc'):
+            return val if key[1] == '==' else (not val)
+        if b == 0 or a == 0:
+            inner = a if b == 0 else b
+            r = _stamp_fact(inner, val if key[1] == '!=' else (not val), p0k)
+            return r
+    return None
 
 
 def _scale(v, cnt):
@@ -372,10 +397,9 @@ def r182(P, u, rep):
             rep.undecided('R18.2', base + ':output-contiguous/' + shape, 'cannot relate the stores to the advance of the write cursor', where=W)
         else:
             rep.ob('R18.2', base + ':output-contiguous/' + shape, tl, 'the bytes stored in an iteration do not exactly fill the range the write cursor advances over', where=W, facts=facts)
-    for ctx, out in paths[:1]:
-        f = decode(ctx, out)
+    for ctx, out, f in decode_all(paths)[:1]:
         if not isinstance(f, str):
-            rep.ob('R18.2', base + ':initial-state', all(isinstance(v, int) and v == 0 for v in f.entry.values()), 'cursors do not start at 0: %r' % (f.entry,), where=W)
+            rep.ob('R18.2', base + ':initial-state', _initial_ok(f), 'read and write cursor do not both start at the first byte of the buffer: %r' % (f.entry,), where=W)
     if seen != {'crlf', 'cr', 'copy', 'exit'}:
         rep.undecided('R18.2', base + ':liveness', 'expected CR LF, lone CR, copy and exit paths, found %s' % sorted(seen), where=W)
     # order of the passes in tokenize_file
@@ -434,13 +458,15 @@ def r183(P, u, rep):
         head = lh[1]
         entry = le[1]
         facts = {'path': ctx.trail}
+        if any(contradictory(ctx, Term('byte', e[1])) for e in ctx.events if e[0] == 'bread'):
+            continue      # infeasible combination of byte tests
         ptrs = [k for k, v in head.items() if isinstance(v, Sym) and '*' in (v.ctype or '')]
         cnts = [k for k, v in head.items() if isinstance(v, Sym) and '*' not in (v.ctype or '')]
         toks = [k for k, v in head.items() if not isinstance(v, Sym)]
-        if len(ptrs) != 1 or len(cnts) != 1 or len(toks) != 1:
-            rep.undecided('R18.3', base + ':shape', 'expected one scan pointer, one line counter and one token cursor among the loop variables %s' % sorted(head), where=W)
+        if len(ptrs) != 1 or len(cnts) != 1 or len(toks) > 1:
+            rep.undecided('R18.3', base + ':shape', 'expected one scan pointer, one line counter and at most one token cursor among the loop variables %s' % sorted(head), where=W)
             continue
-        pv, nv, tv = ptrs[0], cnts[0], toks[0]
+        pv, nv, tv = ptrs[0], cnts[0], (toks[0] if toks else None)
         p0, n0 = head[pv], head[nv]
         evs = after(ctx, 'loop_head')
         ie, xe, fe = first(ctx, 'iter_end'), first(ctx, 'loop_exit'), first(ctx, 'fn_end')
@@ -453,11 +479,9 @@ def r183(P, u, rep):
         # stamp tests on this path: facts  p0 == X.loc
         tests = []
         for k, val in ctx.facts.items():
-            if k[0] == 'term' and k[1] in ('==', '!=') and len(k) == 4:
-                a, b = k[2], k[3]
-                other = b if a == vkey(p0) else (a if b == vkey(p0) else None)
-                if other is not None and other[0] == 'sym' and other[1].endswith('.loc'):
-                    tests.append((val if k[1] == '==' else (not val)))
+            r = _stamp_fact(k, val, vkey(p0))
+            if r is not None:
+                tests.append(r)
         stamps = [e for e in evs if e[0] == 'fstore' and e[2] == 'line_no']
         state = ie[1] if ie is not None else (xe[1] if xe is not None else None)
         if xe is not None and xe[2] in ('cond-at-head', 'break') and not tests:
@@ -483,11 +507,12 @@ def r183(P, u, rep):
             okv = len(stamps) == 1 and isinstance(stamps[0][1], Obj) and (d == 0 and isinstance(d, int))
             rep.ob('R18.3', base + ':stamp-is-current-count', bool(okv),
                    'a token that starts at the visited byte gets line_no %r instead of the current count %r' % (v, n0), where=W, facts=facts)
-            tend = state.get(tv) if state else None
+            tend = state.get(tv) if (state and tv) else None
             tobj = stamps[0][1] if stamps else None
             nxt = tobj.fields.get('next') if isinstance(tobj, Obj) else None
             oka = nxt is not None and isinstance(tend, View) and isinstance(nxt, View) and tend.cell is nxt.cell
-            rep.ob('R18.3', base + ':token-cursor-advances', bool(oka), 'after stamping a token the token cursor does not move to its successor: later tokens are never stamped', where=W, facts=facts)
+            if ie is not None:
+              rep.ob('R18.3', base + ':token-cursor-advances', bool(oka), 'after stamping a token the token cursor does not move to its successor: later tokens are never stamped', where=W, facts=facts)
         else:
             rep.ob('R18.3', base + ':no-stamp-elsewhere', not stamps, 'a token is stamped although the scan pointer is not at its loc', where=W, facts=facts)
         if state is not None:
@@ -496,7 +521,8 @@ def r183(P, u, rep):
             resid = lsub(dn, nl)
             rep.ob('R18.3', base + ':count-per-newline/' + ('LF' if nl == 1 else ('other' if nl == 0 else 'unknown')), isinstance(resid, int) and resid == 0,
                    'visiting a byte that %s a newline changes the line count by %s' % ('is' if nl == 1 else ('is not' if nl == 0 else 'may be'), dn), where=W, facts=facts)
-            rep.ob('R18.3', base + ':one-byte-per-iteration', isinstance(dp, int) and dp == 1, 'the scan pointer advances by %s per iteration' % (dp,), where=W, facts=facts)
+            if ie is not None:
+                rep.ob('R18.3', base + ':one-byte-per-iteration', isinstance(dp, int) and dp == 1, 'the scan pointer advances by %s per iteration' % (dp,), where=W, facts=facts)
     if n_it < 4 or n_exit < 1 or n_stamp < 2:
         rep.undecided('R18.3', base + ':liveness', 'iterations %d, exits %d, stamping paths %d' % (n_it, n_exit, n_stamp), where=W)
     _r183_tokenize(P, u, rep)
@@ -511,10 +537,11 @@ def _r183_tokenize(P, u, rep):
     top = body.inner
     idx_eof = idx_aln = idx_cf = None
     for i, s in enumerate(top):
+        plain = s.kind in ('BinaryOperator', 'CallExpr', 'DeclStmt', 'ReturnStmt')     # not under a condition or loop
         for c in s.calls('new_token'):
-            if c.args() and c.args()[0].int_value() == u.enum_value('TK_EOF'):
+            if c.args() and c.args()[0].int_value() == u.enum_value('TK_EOF') and plain:
                 idx_eof = i
-        if s.calls('add_line_numbers'):
+        if s.calls('add_line_numbers') and plain:
             idx_aln = i
         x = s.strip() if hasattr(s, 'strip') else s
         if x.kind == 'BinaryOperator' and x.opcode == '=' and x.inner[0].strip().kind == 'DeclRefExpr' and x.inner[0].strip().ref_name == 'current_file':
@@ -554,6 +581,8 @@ def _r183_error_at(P, u, rep):
             rep.undecided('R18.3', base + ':shape', 'no counting loop reached', where=W)
             continue
         head, entry = lh[1], le[1]
+        if any(contradictory(ctx, Term('byte', e[1])) for e in ctx.events if e[0] == 'bread'):
+            continue
         ptrs = [k for k, v in head.items() if isinstance(v, Sym) and '*' in (v.ctype or '')]
         cnts = [k for k, v in head.items() if isinstance(v, Sym) and '*' not in (v.ctype or '')]
         if len(ptrs) != 1 or len(cnts) != 1:
